@@ -41,7 +41,8 @@ theorem advertised_range (cfg : Cfg) (w : Window cfg) (a ttl : Int)
     (h1 : cfg.min_manifest_ttl ≤ ttl) (h2 : ttl ≤ cfg.max_manifest_ttl) :
     cfg.min_manifest_ttl ≤ announce_advertised_ttl a ttl cfg ∧ announce_advertised_ttl a ttl cfg ≤ ttl := by
   have := w.min_pos
-  unfold announce_advertised_ttl clamp_chunk_ttl kMinAllowedManifestTtl
+  unfold announce_advertised_ttl clamp_chunk_ttl
+  gen_consts
   grind
 
 /-- the recorded expiry of a pending fetch: not after the manifest, at most max_ttl ahead -/
